@@ -4,7 +4,7 @@
   Obligations are listed in harness/props/c35.py.
 -/
 import NiftyVerif.Lemmas.Response
-import NiftyVerif.Lemmas.ResponseLos5
+import NiftyVerif.Lemmas.ResponseLos6
 import NiftyVerif.Lemmas.Nft
 import NiftyVerif.Lemmas.LinOps
 import NiftyVerif.Props.C02
@@ -222,6 +222,30 @@ theorem los_clip_inside (shape : List ℕ) (s dir : List ℚ) (hlt : (clipT shap
     (h1 : (clipT shape s dir).1 ≤ t) (h2 : t ≤ (clipT shape s dir).2) :
     ∀ a ∈ boxAxes shape s dir, 0 ≤ a.2.1 + t * a.2.2 ∧ a.2.1 + t * a.2.2 ≤ (a.1 : ℚ) :=
   clipT_inside shape s dir hlt t h1 h2
+
+/-- every pixel index the code emits for a generic line lies inside the grid `[0, Π shape)` (so `coo_matrix` never sees an
+    out-of-range column) — same hypotheses as the refinement theorem, all axis lengths positive -/
+theorem los_traverse_in_grid (eps : ℚ) (heps : 0 ≤ eps) (shape : List ℕ) (s e : List ℚ)
+    (hl1 : shape.length = s.length) (hl2 : s.length = e.length) (hn : ∀ n ∈ shape, 0 < n)
+    (hne : (clipT shape s (dirOf s e)).1 + eps < (clipT shape s (dirOf s e)).2 - eps)
+    (hgen : ∀ se ∈ s.zip e, se.2 - se.1 ≠ 0 → ¬ Cross se.1 (se.2 - se.1) ((clipT shape s (dirOf s e)).1 + eps))
+    (hnd : ((events shape s (dirOf s e) ((clipT shape s (dirOf s e)).1 + eps)
+              ((clipT shape s (dirOf s e)).2 - eps)).map Prod.fst).Nodup) :
+    ∀ p ∈ ResponseLos.traverse eps shape s e, 0 ≤ p.1 ∧ p.1 < (prodL shape : ℤ) := by
+  have hlt : (clipT shape s (dirOf s e)).1 < (clipT shape s (dirOf s e)).2 := by linarith
+  have hnn : ∀ se ∈ s.zip e, 0 ≤ se.1 + ((clipT shape s (dirOf s e)).1 + eps) * (se.2 - se.1) := by
+    intro se hse
+    obtain ⟨a, ha, h1, h2⟩ := boxAxes_zip shape s e hl1 hl2 se hse
+    have i1 := clipT_inside shape s (dirOf s e) hlt ((clipT shape s (dirOf s e)).1 + eps) (by linarith) (by linarith) a ha
+    rw [h1, h2] at i1
+    exact i1.1
+  obtain ⟨L, hLs, hLb, hw⟩ := traverseFrom_is_walk shape s e _ _ hne hnn hgen hnd
+  rw [traverse_eq, if_neg (not_le.mpr hne), hw]
+  intro p hp
+  obtain ⟨m, h1, h2, h3⟩ := walkG_mem _ _ L _ hne hLs hLb p hp
+  rw [h3]
+  exact flatF_in_grid m shape s (dirOf s e) hn
+    (clipT_inside_strict shape s (dirOf s e) hn m (by linarith) (by linarith))
 
 /-- the code's clipping (`d0/d1`, `np.minimum/np.maximum`, the `direction == 0` sentinel `±5·10¹¹`, `max(0,·)`, `min(1,·)`,
     `max(dmin, dmax)`) computes exactly the parameter interval of the independent `clipBox` — every dimension and shape with
